@@ -396,7 +396,7 @@ pub const DECLS: &[&str] = &[
     "MEASure:CHARacter?", "MEASure:SPECial?", "FAIL", "FAILQ?", "BIG?", "HEX", "MEASure:TRIple?", "SOURce:LEVel:STEP",
     "CONFigure:SOURce:LEVel?", "WIDE",
     "MEASure:NORMalize", "TRIGger:IN_A", "TRIGger:INPut", "VOLTage:RANGe?", "CURRent:RANGe?", "VOLTage:LEVel?", "CURRent:LEVel?", "TEMPerature:VALue?",
-    "TEMPlate:NAME?", "CONFigure:TEN", "MATH:MULTiplyFloat?", "INPut2:DIG_IO:TeST", "ERRor:RAISe", "FREQ:STARt", "FREQuency:STOP", "MATH:ECHO?", "ERRor:VALue?", "[SOURce]:POWer", "SOURce:POWer?", "TRIGger:[SEQuence]:DELay", "TRIGger:DELay?", "MATH:SIZE?",
+    "TEMPlate:NAME?", "CONFigure:TEN", "MATH:MULTiplyFloat?", "INPut2:DIG_IO:TeST", "ERRor:RAISe", "FREQ:STARt", "FREQuency:STOP", "MATH:ECHO?", "ERRor:VALue?", "[SOURce]:POWer", "SOURce:POWer?", "TRIGger:[SEQuence]:DELay", "TRIGger:DELay?", "MEASure:NOTHing?", "CALibration:TEMPeratureOffset", "MATH:SIZE?",
     // requested in the attribute: StandardCommands, ErrorCommands (C01: exist exactly when requested)
     "SYSTem:VERSion?", "SYSTem:ERRor:[NEXT]?", "SYSTem:ERRor:COUNt?",
 ];
@@ -405,7 +405,7 @@ pub fn params(id: usize) -> &'static [PT] {
         2 => &[PT::U8], 4 => &[PT::I16], 6 => &[PT::Bool], 7 => &[PT::U32, PT::U32, PT::U32], 8 => &[PT::I64, PT::I64], 9 => &[PT::Str],
         11 => &[PT::Bytes], 13 => &[PT::F64], 14 => &[PT::F32], 18 => &[PT::U8], 22 => &[PT::U16], 23 => &[PT::I8, PT::Str, PT::Bool],
         24 => &[PT::U8], 26 => &[PT::I32, PT::U64, PT::I64],
-        36 => &[PT::U8; 10], 37 => &[PT::F64, PT::F64], 38 => &[PT::U8], 39 => &[PT::I16], 42 => &[PT::U64], 43 => &[PT::I16], 44 => &[PT::U32], 46 => &[PT::U8], 48 => &[PT::U64, PT::I64],
+        36 => &[PT::U8; 10], 37 => &[PT::F64, PT::F64], 38 => &[PT::U8], 39 => &[PT::I16], 42 => &[PT::U64], 43 => &[PT::I16], 44 => &[PT::U32], 46 => &[PT::U8], 49 => &[PT::U8], 50 => &[PT::U64, PT::I64],
         _ => &[],
     }
 }
@@ -416,9 +416,9 @@ pub enum Exp { Exact(i16), AnyOf(Vec<i16>), Any }
 pub enum OEv { Call(String), Err(Exp) }
 
 pub const QCAP: usize = 3;
-pub const ID_VERS: usize = 49;
-pub const ID_ERR_NEXT: usize = 50;
-pub const ID_ERR_COUNT: usize = 51;
+pub const ID_VERS: usize = 51;
+pub const ID_ERR_NEXT: usize = 52;
+pub const ID_ERR_COUNT: usize = 53;
 #[derive(Clone, Debug)]
 pub struct ODev { pub level: u8, pub text: Vec<u8>, pub block: Vec<u8>, pub queue: Vec<Exp>, pub qcap: usize }
 impl ODev { pub fn new() -> ODev { ODev { level: 0, text: vec![], block: vec![], queue: vec![], qcap: QCAP } } }
@@ -498,7 +498,9 @@ pub fn handler(d: &mut ODev, id: usize, a: &[TArg]) -> (String, Result<Resp, i16
         45 => ("SOUR:POW?".into(), Ok(Resp::Int(7))),
         46 => (format!("TRIG:SEQ:DEL({})", int(&a[0])), Ok(Resp::Unit)),
         47 => ("TRIG:DEL?".into(), Ok(Resp::Int(8))),
-        48 => (format!("MATH:SIZE?({},{})", int(&a[0]), int(&a[1])), Ok(Resp::Tuple(vec![Resp::Int(int(&a[0])), Resp::Int(int(&a[1]))]))),
+        48 => ("MEAS:NOTH?".into(), Ok(Resp::Unit)),      // a query without response data: the response is the terminator alone
+        49 => (format!("CAL:TEMPO({})", int(&a[0])), Ok(Resp::Unit)),
+        50 => (format!("MATH:SIZE?({},{})", int(&a[0]), int(&a[1])), Ok(Resp::Tuple(vec![Resp::Int(int(&a[0])), Resp::Int(int(&a[1]))]))),
         // C01: the standard commands that were requested in the attribute
         ID_VERS => ("".into(), Ok(Resp::Chars(b"1999.0".to_vec()))),
         _ => unreachable!(),
